@@ -8,22 +8,30 @@ from .gen import gen, reduce as reducer
 from .run import pmap
 
 
-def gen_batch(ctx, n, features=None, size=1.0, label="prog"):
+def gen_batch(ctx, n, features=None, size=1.0, label="prog", neutral_fraction=0.0):
     """[(index, Program, expected)] – deterministic in (seed, property, index).  Generation is CPU bound python;
     it is spread over processes."""
     import concurrent.futures as cf
     seeds = [ctx.rng(label, i).getrandbits(64) for i in range(n)]
     out = []
     with cf.ProcessPoolExecutor(max_workers=min(16, os.cpu_count() or 4)) as ex:
-        for i, res in enumerate(ex.map(_gen_one, [(s, features, size) for s in seeds], chunksize=4)):
+        jobs = []
+        for i, s in enumerate(seeds):
+            neutral = neutral_fraction > 0 and (i % 100) < neutral_fraction * 100
+            f2 = features
+            if neutral:
+                f2 = dict(gen.EVALUATOR_ONLY_SWITCHES)
+                f2.update(features or {})
+            jobs.append((s, f2, size, neutral))
+        for i, res in enumerate(ex.map(_gen_one, jobs, chunksize=4)):
             if res is not None:
                 out.append((i, res[0], res[1]))
     return out
 
 
 def _gen_one(args):
-    seed, features, size = args
-    prog, exp = gen.make_program(random.Random(seed), features, size)
+    seed, features, size, neutral = args
+    prog, exp = gen.make_program(random.Random(seed), features, size, neutral_shadows=neutral)
     if prog is None:
         return None
     return prog, exp
